@@ -179,8 +179,11 @@ func (r *Runner) Fabricate(g *rng.R, flavor string) *Submission {
 		return nil
 	}
 	if flavor == "spend-as-block" {
-		v2 = r.v2ok()
+		v2 = r.v2ok() && !r.v1ok()
 		s.V2 = v2
+	}
+	if flavor == "merge-old-v1" && !r.v1ok() {
+		return nil
 	}
 	free := r.freeInputs(tip)
 	pick := func() (types.SiacoinElement, bool) {
@@ -214,6 +217,25 @@ func (r *Runner) Fabricate(g *rng.R, flavor string) *Submission {
 		if !fresh() {
 			return nil
 		}
+	case "merge-old-v1":
+		// a v1 transaction spending a free element together with the change output of the transaction accepted
+		// first in this history (confirmed by now)
+		if len(r.Old1) == 0 {
+			return nil
+		}
+		q := r.Old1[0].V1
+		oid, oval := changeV1(q)
+		if _, ok := r.W.Info(tip).L.SC[oid]; !ok {
+			return nil
+		}
+		e, ok := pick()
+		if !ok || e.ID == oid {
+			return nil
+		}
+		t := types.Transaction{SiacoinInputs: []types.SiacoinInput{{ParentID: e.ID, UnlockConditions: r.W.Env.UC}, {ParentID: oid, UnlockConditions: r.W.Env.UC}}, MinerFees: []types.Currency{types.Siacoins(2)}}
+		t.SiacoinOutputs = []types.SiacoinOutput{{Address: r.W.Env.Addr, Value: e.SiacoinOutput.Value.Add(oval).Sub(types.Siacoins(2))}}
+		r.W.Env.SignV1(tip.FullState, &t)
+		add1(t, Meta{SignedAt: tip.Height, POK: true})
 	case "spend-as-block":
 		// a transaction spending an element that a transaction of tree block asBlock spends too (free at
 		// the tip): when that block is applied, even transiently, this transaction may leave the pool
